@@ -771,6 +771,27 @@ def r17_2(prog, rep):
             ok = src in (f"list(flatten_list({var}))", f"flatten_list({var})")
             obl(rep, f, dfs[0], "R17.2", ok, "labels are flattened in order (no sorting, no de-duplication)", src,
                 f"columns={src}: label order can differ from column order")
+    # the frame that is returned IS that wrapper: no conversion of its values afterwards (astype per column, rounding, re-indexing):
+    # the data-frame view shows the numbers of design_matrix
+    for q in ("matrices.CommonEffectsMatrix.as_dataframe", "matrices.ResponseMatrix.as_dataframe"):
+        f = prog.fn(q)
+        dfs_ = [x for x in calls_in(f.node) if dotted(x.func) == "pd.DataFrame"]
+        rets_ = [r_ for r_ in walk_local(f.node) if isinstance(r_, ast.Return)]
+        ok = len(dfs_) == 1 and len(rets_) == 1 and rets_[0].value is not None
+        shown = unparse(rets_[0].value) if rets_ and rets_[0].value is not None else ""
+        if ok:
+            v = rets_[0].value
+            hops = 0
+            while isinstance(v, ast.Name) and hops < 3:
+                ds_ = [s_ for s_ in walk_local(f.node) if isinstance(s_, ast.Assign) and len(s_.targets) == 1 and unparse(s_.targets[0]) == v.id]
+                loads_ = [n for n in ast.walk(f.node) if isinstance(n, ast.Name) and n.id == v.id and isinstance(n.ctx, ast.Load)]
+                if len(ds_) != 1 or len(loads_) != 1:
+                    break
+                v = ds_[0].value
+                hops += 1
+            ok = v is dfs_[0]
+        obl(rep, f, rets_[0] if rets_ else f.node, "R17.2", ok, "as_dataframe returns the pd.DataFrame wrapper of design_matrix itself (values not converted afterwards)", "",
+            f"as_dataframe returns `{shown}`: the frame is post-processed, its numbers can differ from design_matrix")
     f = prog.fn("matrices.ResponseMatrix.as_dataframe")
     dfs = [x for x in calls_in(f.node) if dotted(x.func) == "pd.DataFrame"]
     ok = len(dfs) == 1 and unparse(dfs[0].args[0]) == "self.design_matrix" and \
